@@ -23,7 +23,7 @@ from fractions import Fraction
 import numpy as np
 import scipy.sparse as sps
 
-from ..common import q, qlist, qclist, fr, call_impl, close
+from ..common import q, qlist, qclist, fr, call_impl, close, vary_layout, frozen
 
 EXTRA_LEAN_MODULES = ("PymotoVerif.Props.C07LDAS",)   # composition C06 o C07, built with every check of C06
 TOL = 1e-7
@@ -84,7 +84,7 @@ def _mk_wrapper(sparse, usym, uherm):
 
 def _mat(op, sparse):
     A = np.array(op["A"], dtype=complex if op["cplx"] else float)
-    return sps.csc_matrix(A) if sparse else A
+    return sps.csc_matrix(A) if sparse else vary_layout(A, (A.shape, float(np.abs(A).sum())))   # C / Fortran order / transposed view
 
 
 def _rhs(op):
@@ -111,7 +111,11 @@ def run_impl(hist, fresh_each_update=False):
                 if op["op"] == "update":
                     if fresh_each_update:
                         w, proxy = _mk_wrapper(sparse, usym, uherm)
-                    r = call_impl(w.update, _mat(op, sparse))
+                    Ain = _mat(op, sparse)
+                    snapA = None if sparse else frozen(Ain)
+                    r = call_impl(w.update, Ain)
+                    if r[0] == "ok" and not sparse and frozen(Ain) != snapA:
+                        r = ("err", "InputClobbered", "update() wrote into the caller's matrix")
                     if r[0] == "err":
                         out.append({"err": r[1], "msg": r[2]})
                     else:
